@@ -93,8 +93,8 @@ Definition add_no_data_attr (nd : sample) (any : bool) : sample :=
 Definition valid_pixels : Z := 0.
 Definition no_data_mask : Z := 1.
 
-(* add_mask: the test applied to the input mask: np.where(input_mask > 0) *)
-Definition mask_test (v : Z) : bool := v >? 0.
+(* add_mask: the test applied to the input mask: np.where(input_mask != 0) *)
+Definition mask_test (v : Z) : bool := negb (v =? 0).
 
 (* (no_data_pixels[-2], no_data_pixels[-1]): the pixel is listed when some band matches *)
 Definition nd_pixel (nd : sample) (data : list (arr sample)) (r c : Z) : bool :=
